@@ -2,6 +2,8 @@ SPECIFICATION Spec
 CONSTANT TerOnModelChange = TRUE
 CONSTANT CifChargeVerbatim = FALSE
 CONSTANT ShapeLevel = 2
+CONSTANT TerChainPadded = TRUE
+CONSTANT BlankSecondChain = FALSE
 CONSTANT MaxAtoms = 5
 INVARIANT InvDomain
 INVARIANT InvReadBack
